@@ -99,15 +99,30 @@ impl ListenerHandler for FakeListener {
     }
 }
 
-fn pair() -> (MioTcpStream, std::net::TcpStream) {
-    let l = std::net::TcpListener::bind("127.0.0.1:0").expect("bind");
-    let la = l.local_addr().unwrap();
-    let c = std::net::TcpStream::connect(la).expect("connect");
-    let (a, _) = l.accept().expect("accept");
-    c.set_nonblocking(true).unwrap();
-    c.set_nodelay(true).unwrap();
-    a.set_nodelay(true).unwrap();
-    (MioTcpStream::from_std(c), a)
+/// Both sockets of the rig are `AF_UNIX` stream socketpairs wrapped as
+/// `mio::net::TcpStream`: the Pipe only `read`s / `write`s its backend socket (same
+/// stream semantics: in-order bytes, EOF after `shutdown(Write)`, FIONREAD,
+/// POLLRDHUP), and never touches the front one (the scripted `FakeSock` answers).
+/// No TCP port is used, so thousands of cases leave no TIME_WAIT entries and
+/// cannot collide with the other rigs on the machine.
+fn pair() -> std::io::Result<(MioTcpStream, std::os::unix::net::UnixStream)> {
+    use std::os::unix::io::{FromRawFd, IntoRawFd};
+    let (a, b) = std::os::unix::net::UnixStream::pair()?;
+    a.set_nonblocking(true)?;
+    let fd = a.into_raw_fd();
+    // SAFETY: `fd` is a freshly created, owned stream socket
+    Ok((unsafe { MioTcpStream::from_raw_fd(fd) }, b))
+}
+
+/// a set-up step is retried a few times before the case is declared inconclusive
+fn retry<T>(mut f: impl FnMut() -> std::io::Result<T>) -> Option<T> {
+    for attempt in 0..4u32 {
+        if let Ok(v) = f() {
+            return Some(v);
+        }
+        std::thread::sleep(Duration::from_millis(20 << attempt));
+    }
+    None
 }
 
 fn avail(fd: i32) -> usize {
@@ -140,7 +155,8 @@ fn res_str(r: SessionResult) -> &'static str {
 struct Rig {
     pipe: Pipe<FakeSock, FakeListener>,
     script: Rc<RefCell<Script>>,
-    peer: std::net::TcpStream,
+    peer: std::os::unix::net::UnixStream,
+    _front_peer: std::os::unix::net::UnixStream,
     back_fd: i32,
     /// bytes the backend peer delivered and sozu has not read yet (expected in the kernel)
     pending_back: usize,
@@ -253,13 +269,23 @@ impl Area for P {
         let mut run = ImplRun::default();
         let mut rig: Option<Rig> = None;
         let mut metrics = SessionMetrics::new(None);
+        // a set-up step (socket creation) that still fails after retries makes the case
+        // inconclusive: counted in the distribution, never a failure by itself
+        let mut inconclusive = false;
         for op in ops {
+            if inconclusive {
+                run.out.push("inconclusive".into());
+                continue;
+            }
             let w: Vec<&str> = op.split_whitespace().collect();
             if let ["new", cap, _hb] = w.as_slice() {
                 let cap: usize = cap.parse().unwrap_or(64);
-                let (front, _front_peer) = pair();
-                std::mem::forget(_front_peer);
-                let (back, peer) = pair();
+                let (Some((front, front_peer)), Some((back, peer))) = (retry(pair), retry(pair)) else {
+                    inconclusive = true;
+                    run.tags.push("inconclusive".into());
+                    run.out.push("inconclusive".into());
+                    continue;
+                };
                 let back_fd = back.as_raw_fd();
                 let mut pool = Pool::with_capacity(2, 2, cap);
                 let fb = pool.checkout().unwrap();
@@ -285,7 +311,7 @@ impl Area for P {
                     WebSocketContext::Tcp,
                 );
                 let line = format!("new fr={} br={} chk={}", bits(&pipe.frontend_readiness), bits(&pipe.backend_readiness), pipe.check_connections() as u8);
-                rig = Some(Rig { pipe, script, peer, back_fd, pending_back: 0, back_sent: vec![], back_fin: false, dead: false, closed_by: String::new(), _pool: pool });
+                rig = Some(Rig { pipe, script, peer, _front_peer: front_peer, back_fd, pending_back: 0, back_sent: vec![], back_fin: false, dead: false, closed_by: String::new(), _pool: pool });
                 run.out.push(line);
                 continue;
             }
@@ -452,14 +478,40 @@ impl Area for P {
         run
     }
 
+    fn lines_agree(&self, impl_line: &str, model_line: &str) -> bool {
+        impl_line == model_line || impl_line == "inconclusive"
+    }
+
     fn classify_mismatch(&self, ops: &[String], i: &[String], m: &[String]) -> String {
         let k = (0..i.len().max(m.len())).find(|&k| i.get(k) != m.get(k)).unwrap_or(0);
         format!("model-mismatch:{}", ops.get(k).and_then(|o| o.split(' ').next()).unwrap_or("?"))
     }
 }
 
+/// more than 2 % inconclusive cases = the run says nothing: that is a failure of the harness run
+fn inconclusive_gate(args: &Args, rc: i32) -> i32 {
+    if args.out.is_empty() || args.replay.is_some() {
+        return rc;
+    }
+    let Ok(txt) = std::fs::read_to_string(&args.out) else { return rc };
+    let Ok(mut v) = serde_json::from_str::<serde_json::Value>(&txt) else { return rc };
+    let n = v["distribution"]["inconclusive"].as_u64().unwrap_or(0);
+    let ev = v["evaluations"].as_u64().unwrap_or(0).max(1);
+    if n * 50 > ev {
+        if let Some(f) = v["failures"].as_array_mut() {
+            f.push(serde_json::json!({"kind": "oracle", "class": "harness-inconclusive", "case": -1, "ops": [], "impl_out": [], "model_out": [],
+                "detail": format!("{n} of {ev} cases stayed inconclusive after set-up retries (> 2 %)")}));
+        }
+        let _ = std::fs::write(&args.out, serde_json::to_string_pretty(&v).unwrap());
+        println!("FAIL harness-inconclusive {n} of {ev}");
+        return 1;
+    }
+    rc
+}
+
 fn main() {
     std::panic::set_hook(Box::new(|_| {}));
     let args = parse_args();
-    std::process::exit(run_area(&P, &args));
+    let rc = run_area(&P, &args);
+    std::process::exit(inconclusive_gate(&args, rc));
 }
